@@ -156,7 +156,9 @@ func (c *RegConfig) ParseOrResolveBlocklisted(provided string) (string, bool) {
 	if err != nil {
 		return "", lookup
 	}
-	if addr == nil || c.isBlocklistedCovertAddr(addr.IP) {
+	// An empty host ("":port) resolves to an IPAddr with a nil IP, which no blocklist entry contains and which
+	// net.Dial would treat as the local system: never hand it out.
+	if addr == nil || addr.IP == nil || c.isBlocklistedCovertAddr(addr.IP) {
 		return "", lookup
 	}
 	return net.JoinHostPort(addr.String(), port), lookup
